@@ -9,7 +9,7 @@ def run(chk, replay=None):
     thorough = chk.tier == "thorough"
     c01.run_common(chk, replay, "C02", ["release", "relcheck"] if thorough else ["release"])
     chk.rule = ("one factor() call per (shape x bit-length class x selector x thread count) enumerated by FactorShapes.tla "
-                "(Prop = C02: Auto on every shape up to 128 bits (thorough 180), Qs/Mpqs/Siqs on 40..100 bits (thorough 150), "
+                "(Prop = C02: Auto on every shape up to 128 bits (thorough 160), Qs/Mpqs/Siqs on 40..100 bits (thorough 120), "
                 "Ecm with cofactors <= 40 bits, Ecm128 up to 80 bits); inputs are products of primes of the certified pool, "
                 "every pool prime's Pocklington chain is verified by TLC (op cert), and the returned list must consist of "
                 "those primes; plus every n < 2^16 (Auto) and every p*q < 2^17 without factor below 200 (Auto, Ecm, Ecm128) "
